@@ -162,7 +162,7 @@ pub fn profile_for(prop: &str) -> Profile {
             p.w.flush = 10;
             p.max_vols = 2;
         }
-        "small" | "crash09" => {
+        "small" | "crash09" | "fault11" => {
             p.name = "small";
             p.bias = Bias::Small;
             p.max_vols = 2;
@@ -185,6 +185,16 @@ pub fn profile_for(prop: &str) -> Profile {
             p.w.flush = 8;
             p.reent_pct = 0;
             p.invalid_pct = 1;
+            if prop == "fault11" {
+                // directory walks, lookups and listings matter as much as mutation here
+                p.w.find = 10;
+                p.w.iterate = 10;
+                p.w.read = 12;
+                p.w.open_dir = 12;
+                p.w.close_volume = 4;
+                p.min_len = 4;
+                p.max_len = 16;
+            }
             if prop == "crash09" {
                 // flush early and often, then keep working next to the flushed files
                 p.w.flush = 16;
